@@ -575,6 +575,14 @@ func (in *c16Inst) check(c *mc.Ctx, path []string) {
 				}
 				sort.Strings(oe)
 				cls = "|deciding-vote-fails|open:" + strings.Join(oe, ",")
+				for n, evs := range st.openEv {
+					for _, ev := range evs {
+						if n != st.target && ev == "activate" {
+							// root cause of the recorded finding, whatever else is open
+							cls = "|deciding-vote-fails|a-service-has-a-paused-activate-proposal"
+						}
+					}
+				}
 			}
 			bad("wrong-status-after-step|"+o.kind+"|"+st.trigger+"|"+from+"->"+to+cls, "%s should be %s after %s (was %s), it is %s %s", st.target, want, st.trigger, from, to, st.why)
 		}
@@ -743,16 +751,24 @@ func c16RoleNode(c *mc.Ctx, depth int) {
 // an open proposal, and a logout may be submitted on top of an object's own open freeze /
 // activate proposal (which it pauses; when the logout is rejected the paused proposal is
 // proposed again, when it is approved the paused one is rejected).
-func c16Concurrent(c *mc.Ctx, depth int) {
+func c16Concurrent(c *mc.Ctx, depth int, three bool) {
 	var ops []string
-	for _, o := range []string{"svcA1", "chainA"} {
+	objs := []string{"svcA1", "chainA"}
+	if three {
+		objs = append(objs, "svcA3")
+	}
+	for _, o := range objs {
 		for _, e := range []string{"freeze", "activate", "logout"} {
 			ops = append(ops, "csub:"+o+":"+e)
 		}
 		ops = append(ops, "cconclude:"+o+":approve", "cconclude:"+o+":reject")
 	}
-	ops = append(ops, "probe:p1", "probe:p3")
-	b := &mc.BFS{C: c, Name: "govmc-concurrent", MaxDepth: depth, EveryTransition: true,
+	ops = append(ops, "probe:p1", "probe:p3", "probe:p2")
+	name := "govmc-concurrent"
+	if three {
+		name = "govmc-concurrent3"
+	}
+	b := &mc.BFS{C: c, Name: name, MaxDepth: depth, EveryTransition: true,
 		Init:    func() mc.Instance { return newC16Inst() },
 		Enabled: func(x mc.Instance, d int) []string { return ops },
 		Apply: func(x mc.Instance, op string, path []string) (bool, bool) {
@@ -790,7 +806,8 @@ func C16(c *mc.Ctx) {
 	b.Run()
 	c16RoleNode(c, depth)
 	c16Rules(c, depth)
-	c16Concurrent(c, depth)
+	c16Concurrent(c, depth+5, false) // the abstract state space closes before this depth
+	c16Concurrent(c, depth, true)    // also A:s3, a second service of the appchain
 	fix.Cleanup()
 	c.Set("rule_role_node", "second BFS over {submit freeze/activate/logout of governance admin 3's role; submit register/update/logout of a non-validating node; conclude the open proposal by 3 approvals or 3 rejections; restart}: every status change of the role / node record must be an edge of its declared state machine for the step's trigger, forbidden is absorbing, refused operations change nothing")
 	c.Set("rule_rules", "third BFS (world with a fabric-type chain F: three built-in rules, master = SimFabric; and chain W: built-in happy rule + a deployed WASM rule as master) over {UpdateMasterRule to each rule of F and W; LogoutRule of the deployed rule and of a built-in rule; freeze/activate/logout of appchain F; conclude the open proposal by 3 approvals or 3 rejections; restart}: every status change of a rule is an edge of the rule state machine for the step's trigger (candidate: bindable->binding->available|bindable; replaced master: available->unbinding->bindable|available; logout: bindable->forbidden; cleared with a logged-out appchain), the paused appchain follows available->frozen->available, at most one rule of a chain is available at any time and exactly one when no update is open, refused operations change nothing")
